@@ -1,6 +1,7 @@
 package harness
 
 import (
+	"bytes"
 	"fmt"
 	"testing"
 
@@ -15,6 +16,9 @@ type C11Case struct {
 	Beyond  int      `json:"beyond"`            // how many positions past the last file are probed
 	Order   []int    `json:"order,omitempty"`   // further global positions (modulo the used range) looked up in this order
 	ViaDisk bool     `json:"viaDisk,omitempty"` // the files are written to disk and loaded with text.ReadFile
+	// Big > 0 (implies ViaDisk): the first file starts with Big bytes of filler (an LF every 97 bytes)
+	// followed by a CRLF: Big = 2^k - 1 puts the CR on the last byte of a 2^k block
+	Big int `json:"big,omitempty"`
 }
 
 func (c *C11Case) Describe() string { return fmt.Sprintf("files=%q beyond=%d", c.Files, c.Beyond) }
@@ -31,11 +35,25 @@ func genC11(t *rapid.T) interface{} {
 		c.Files = append(c.Files, b)
 	}
 	c.ViaDisk = rapid.IntRange(0, 7).Draw(t, "viaDisk") == 5
+	if nf > 0 && rapid.IntRange(0, 40).Draw(t, "big") == 9 {
+		k := rapid.IntRange(12, 17).Draw(t, "bigExp")
+		c.Big = 1<<uint(k) - 1 + rapid.SampledFrom([]int{0, 0, 0, -1, 1}).Draw(t, "bigOff")
+		c.ViaDisk = true
+	}
 	k := rapid.IntRange(0, 12).Draw(t, "lookups")
 	for i := 0; i < k; i++ {
 		c.Order = append(c.Order, rapid.IntRange(0, 60).Draw(t, "lookup"))
 	}
 	return c
+}
+
+func nearPowerOfTwo(o int) bool {
+	for k := uint(10); k <= 18; k++ {
+		if d := o - 1<<k; d >= -3 && d <= 3 {
+			return true
+		}
+	}
+	return false
 }
 
 func checkC11(ci interface{}, st *Stats) (err error) {
@@ -51,9 +69,20 @@ func checkC11(ci interface{}, st *Stats) (err error) {
 	// half of the cases add the files through the constructor, half one by one
 	var pf []parsley.File
 	var names []string
+	if c.Big > 1<<18 {
+		return Discard{"filler too long"}
+	}
 	for i, raw := range c.Files {
+		if i == 0 && c.Big > 0 {
+			filler := bytes.Repeat([]byte("x"), c.Big)
+			for k := 96; k < len(filler); k += 97 {
+				filler[k] = '\n'
+			}
+			raw = append(append(filler, '\r', '\n'), raw...)
+			st.Class("first file longer than 4 KiB with a CRLF at a block boundary, loaded from disk")
+		}
 		name := fmt.Sprintf("file%d", i)
-		f := text.NewFile(name, raw)
+		f := newFileOwned(name, raw)
 		if c.ViaDisk {
 			df, dn, err := fileViaDisk(raw)
 			if err != nil {
@@ -132,6 +161,9 @@ func checkC11(ci interface{}, st *Stats) (err error) {
 			emptyFile = true
 		}
 		for o := 0; o <= len(norm[i]); o++ {
+			if n := len(norm[i]); n > 4096 && o > 64 && o < n-64 && o%997 != 0 && !nearPowerOfTwo(o) {
+				continue // long files: both ends, every 997th offset and the surroundings of every 2^k
+			}
 			l, col := lineCol(string(norm[i]), o)
 			want := fmt.Sprintf("%s:%d:%d", names[i], l, col)
 			gp := bases[i] + o
